@@ -13,7 +13,8 @@ def main():
     for pat in pats:
         ex0 = e2.executor(crate)
         for f in e2.find_fns(ex0.prog, pat)[:8]:
-            ex = e2.executor(crate, max_depth=int(os.environ.get('DEPTH', '2')))
+            from mirsym import iters
+            ex = e2.executor(crate, iters.ITER_MODELS if os.environ.get('ITER') else (), max_depth=int(os.environ.get('DEPTH', '2')))
             t0 = time.time()
             try:
                 if f.args and f.decl[f.args[0]].startswith('Pin<&mut {') :
